@@ -6,7 +6,9 @@ CONSTANT Rich
 Flags == [more : BOOLEAN, oneway : BOOLEAN, upgrade : BOOLEAN, cont : BOOLEAN]
 Fr(cls, cont, name, field, nb) == [cls |-> cls, continues |-> cont, name |-> name, field |-> field, nb |-> nb, tok |-> 0]
 ReplyFrames == {Fr("reply", c, "", "", 1) : c \in BOOLEAN}
-ErrFrames == {Fr("error", FALSE, n, "", 1) : n \in (IF Rich THEN {"a.b.E", "E", "org.varlink.service.Unknown", "org.varlink.servicex.E", "a.U1.E"} ELSE {"a.b.E", "org.varlink.service.Unknown"})}
+ErrFrames == {Fr("error", FALSE, n, "", 1) : n \in (IF Rich THEN {"a.b.E", "E", "org.varlink.service.Unknown", "org.varlink.servicex.E", "a.U1.E",
+                                                                    \* other interfaces' errors that are merely called like the four standard ones
+                                                                    "a.b.InvalidParameter", "a.b.MethodNotFound", "x.InterfaceNotFound", "org.varlink.service.x.MethodNotImplemented"} ELSE {"a.b.E", "org.varlink.service.Unknown"})}
 StdFrames == {Fr("stderr", FALSE, n, f, 1) : n \in Std, f \in {"x", ""}} \cup {Fr("stderrbad", FALSE, n, "", 1) : n \in Std}
 Bad == {Fr(c, FALSE, "", "", 1) : c \in {"null", "badjson", "nonobj", "wrongtype"}} \cup {Fr("empty", FALSE, "", "", 0)}
 Partial == Fr("partial", FALSE, "", "", 1)
